@@ -125,6 +125,8 @@ func init() {
 			Run: func(P *Program, R *Report) { oversizedHashRuleAs(P, R, "C04.g") }},
 		Rule{ID: "C04.d", Explain: "the ProofD built by CreateProof sets each field from its tabled source (symbolic terms for the e and v responses).",
 			Run: func(P *Program, R *Report) { proofDLiteralRule(P, R) }},
+		Rule{ID: "C04.h", Explain: "a distributed proof list discloses through the merged proofs only: BuildDistributedProofList merges every proof for which the keyshare server sent a ProofP, decided per proof (proofPs[i] != nil) and for the whole list by proofPs != nil alone (the obligations of C14.f, same rule).",
+			Run: func(P *Program, R *Report) { sharedRule(P, R, "C14", "C14.f", "C04.h", nil) }},
 	)
 }
 
